@@ -7,6 +7,7 @@ import (
 	"encoding/binary"
 	"encoding/json"
 	"fmt"
+	"github.com/cosmos/cosmos-sdk/client"
 	"math/big"
 	"sort"
 	"strings"
@@ -339,6 +340,11 @@ type Case struct {
 	txCounter uint64
 	// IrismodOnly selects the blockers run by Begin/EndBlock.
 	IrismodOnly bool
+	// GenesisEdit, if set, rewrites the exported genesis of the next Reimport the way an operator editing the file by
+	// hand might (another spelling of the same state). The edited file is imported only if the module's own validation
+	// and import accept it; otherwise the export is imported as it is. Counted in EditedImports / EditedRefused.
+	GenesisEdit                  func(module string, exported json.RawMessage) json.RawMessage
+	EditedImports, EditedRefused int
 }
 
 // NewCase starts an isolated case at height 1 (the block after InitChain is "in progress").
@@ -784,8 +790,40 @@ func (c *Case) Reimport(moduleName string, wipePrefixes ...[]byte) (exported jso
 		}
 	}
 	stage = "import"
+	if c.GenesisEdit != nil {
+		if alt := c.GenesisEdit(moduleName, exported); alt != nil && string(alt) != string(exported) {
+			if c.tryImport(moduleName, alt) {
+				c.EditedImports++
+				return exported, "", nil
+			}
+			c.EditedRefused++
+		}
+	}
 	mod.InitGenesis(c.Ctx, cdc, exported)
 	return exported, "", nil
+}
+
+// tryImport validates and imports a genesis document on a branch and keeps the result only if both succeed.
+func (c *Case) tryImport(moduleName string, gen json.RawMessage) (ok bool) {
+	mod := c.E.App.ModuleManager.Modules[moduleName]
+	cc, write := c.Ctx.CacheContext()
+	defer func() {
+		if p := recover(); p != nil {
+			ok = false
+		}
+	}()
+	if v, has := mod.(interface {
+		ValidateGenesis(codec.JSONCodec, client.TxEncodingConfig, json.RawMessage) error
+	}); has {
+		if err := v.ValidateGenesis(c.E.App.AppCodec(), c.E.App.TxConfig(), gen); err != nil {
+			return false
+		}
+	}
+	mod.(interface {
+		InitGenesis(sdk.Context, codec.JSONCodec, json.RawMessage) []abci.ValidatorUpdate
+	}).InitGenesis(cc, c.E.App.AppCodec(), gen)
+	write()
+	return true
 }
 
 // RawDelete removes one key from a module store of the case's branch: fault injection for states that only a
